@@ -220,6 +220,10 @@ def step (st : St) (op : List String) : Option (St × String) :=
   -- has no link to any other; `eop` — no Earth-orientation data for the date under the 'error' policy
   | ["setfrx", i, _, "iso"] => do let a ← var? st i; pure (unitRes st (setFrameTo st.h a (.reg "Isolated" 0) (fun _ _ => some .value)))
   | ["setfrx", i, f, "eop"] => do let a ← var? st i; pure (unitRes st (setFrame st.h a f (fun x y => if x = "EME2000" || y = "EME2000" then some .eop else none)))
+  -- `eopc`: the same policy, rotation by rotation: only PEF <-> ITRF (polar motion from the values cached on the Date) does not raise
+  | ["setfrx", i, f, "eopc"] => do
+    let a ← var? st i
+    pure (unitRes st (setFrame st.h a f (fun x y => if (x = "PEF" && y = "ITRF") || (x = "ITRF" && y = "PEF") then none else some .eop)))
   | ["ctor", i, o] => do
     let a ← var? st i
     if o = "1" then
